@@ -128,10 +128,12 @@ def expected_ok(prop, schema):
 GOOD = ['k > 0', 'f < 1.5', 'flag', 's = "x"', 'arr3[0] = 1', 'arr3[2] > k', 'arrv[10] = 0', 'arrv[k] = 0',
         'inner.z = 1', 'inner.w = "a"', 'msgs[1].q > 0', 'msgs[0].ok', 'C = 5', 'k in {1, C, inner.z}',
         'k in [inner.z to arr3[1]]', 'abs(inner.z) > 0', 'len(arrv) > 0', 'forall i in arrv: @i > k',
-        'exists i in [0 to 2]: arr3[@i] = inner.z', 'arr3[arr3[0]] = 1', 'arrv[inner.z + 1] > 0']
+        'exists i in [0 to 2]: arr3[@i] = inner.z', 'arr3[arr3[0]] = 1', 'arrv[inner.z + 1] > 0',
+        'msgs[k].q > 0', 'msgs[msgs[0].q].q > 0', 'msgs[arr3[1]].ok']
 BAD = ['nope > 0', 'inner.nope = 1', 'arr3[3] = 1', 'arr3[7] > k', 'k.z = 1', 'inner[0] = 1', 'msgs[2].q > 0',
        'msgs[0].nope', 'k in {1, nope}', 'k in [inner.nope to 3]', 'abs(inner.nope) > 0', 'len(nope) > 0',
        'forall i in nope: @i > k', 'exists i in [0 to 2]: arr3[@i] = nope', 'arr3[nope] = 1', 'arrv[inner.nope + 1] > 0',
+       'msgs[nope].q > 0', 'msgs[inner.nope].q > 0', 'msgs[msgs[nope].q].q > 0', 'msgs[arr3[nope]].ok',
        'flag = 1 and flag', 's > 1', 'arr3 = 1', 'inner.w > 0', 'not k']
 
 
